@@ -3970,6 +3970,7 @@ class Wallet(object):
                 transaction.locktime = blockcount
 
         transaction.fee_per_kb = None
+        fee_named = isinstance(fee, str)
         if isinstance(fee, int):
             fee_estimate = fee
         else:
@@ -4081,9 +4082,12 @@ class Wallet(object):
                                       sequence=sequence, locktime_cltv=locktime_cltv, locktime_csv=locktime_csv,
                                       witness_type=witness_type, key_path=key.path)
         # Calculate fees
+        transaction.size = transaction.estimate_size(number_of_change_outputs=number_of_change_outputs)
+        if fee_named and input_arr:
+            # The size is only known now that the given inputs are added
+            fee = int((transaction.size / 1000.0) * transaction.fee_per_kb)
         transaction.fee = fee
         fee_per_output = None
-        transaction.size = transaction.estimate_size(number_of_change_outputs=number_of_change_outputs)
         if fee is None:
             if not input_arr:
                 if not transaction.fee_per_kb:
